@@ -310,6 +310,7 @@ def run(ck, ctx):
     sz = ddisp.get("Stringz", [])
     ok = len(sz) == 1 and sz[0]["segs"] and sz[0]["segs"][-1][0] == "val" and sz[0]["segs"][-1][1] == "debug" and dflds["Stringz"] == ["std::string::String"] and not sz[0]["segs"][-1][3].get("alt")
     ck.ob("C36.5", "stringz-debug", ok, ".stringz prints its String with {:?} (quotes added and escapes by core's Debug for str, no alternate flag)", "src/ast/asm.rs")
+    ck.include("C05", ctx, "C36.6", {"C05.3", "C05.5"}, "printed numbers and registers are read back by the validators and field conversions")
     ck.assume("logos resolves overlaps between token kinds by longest match and priority (R5 lexes as a register, ADD as an instruction); pinned by the crate's lexer tests")
     ck.assume("core's Debug for str escapes exactly \\t \\n \\r \\0 \\\\ \\\" (and \\' never) within the property's alphabet; integer Display/UpperHex print canonical decimal / upper-case hex")
     ck.assume("labels produced by the parser are identifier tokens that are neither keywords, registers nor hex literals (they were lexed as Ident::Label)")
